@@ -326,6 +326,9 @@ def execute(rec):
             item = {'form': form[0], 'err': err}
             item.update(r if r else ({'dict': []} if op['k'] in ('nodal', 'edge', 'facet', 'interior') else {'out': []}))
             res.append(item)
+        if op['k'] == 'or' and res and all(it['err'] for it in res):
+            continue            # `|` on views is deprecated by the library itself ("numpy.hstack"): a version without it
+                                # is not a wrong lookup; a `|` that answers is judged (UnionView)
         ids2 = [int(x) + 1 for x in sels[op['sel2']]['ids']] if op['k'] == 'or' else []
         events.append({'a': 'Query', 'sel': {'kind': s['kind'], 'ids': [int(x) + 1 for x in s['ids']]},
                        'skip': list(q['skip']),
